@@ -259,13 +259,28 @@ PAIRS15 = [
  ("H20", "liquidity instructions executed while the pool price sits EXACTLY on an initialised tick (both the normal and the shifted state after a downward crossing) x dynamic tick arrays"),
 ]
 
+PAIRS16 = [
+ ("I01", "rewards x adaptive-fee pools and full-range-only pools (reward growth advanced by swaps, positions and liquidity changes on such pools)"),
+ ("I02", "collect_fees_v2 / collect_reward_v2 x Token-2022 transfer-fee mints (the payout leaves the vault in full, the holder receives it less the fee; owed amounts, events)"),
+ ("I03", "collect_protocol_fees_v2 x Token-2022 transfer-fee mints x protocol-fee-rate changes"),
+ ("I04", "two-hop swaps x transfer fees on the INPUT and / or OUTPUT mint (not the intermediate one) x thresholds in both modes"),
+ ("I05", "two-hop swaps x token order (the intermediate mint is token A of one pool and token B of the other, or A / B of both) x direction flags"),
+ ("I06", "fees and rewards owed to a position x transfer of the position NFT to another wallet (who may collect, into which accounts) x delegates"),
+ ("I07", "initialize_reward / initialize_reward_v2 at indexes 0, 1, 2 (order of initialisation, re-initialisation, different authorities) x set_reward_emissions x collects"),
+ ("I08", "decrease_liquidity down to zero x de-initialisation of boundary ticks x a later swap through that price x a later re-deposit on the same tick (fixed and dynamic arrays)"),
+ ("I09", "rust-sdk/core swap quotes x the way tick arrays are handed over (order, duplicates, fewer than needed, un-initialised in between) x both directions"),
+ ("I10", "rust-sdk/core exact-out quotes x partial fills (at the end of the supplied arrays, at an explicit-looking bound) x adaptive fees"),
+ ("I11", "fee-growth and reward-growth accumulators close to wrap-around (they are u128 and wrap by design) x position checkpoints x reset_position_range / reposition_liquidity_v2"),
+ ("I12", "the MAX end of the price range: swaps that end on the maximum price, positions bounded by the highest usable tick, tick arrays that reach beyond the last tick (mirror image of the MIN end)"),
+]
+
 def main14(tag, outdir):
     os.makedirs(outdir, exist_ok=True)
     root = os.path.dirname(os.path.dirname(os.path.abspath(__file__)))
     brief = open(os.path.join(root, "notes/SEED_BRIEF.md")).read().split("\n---\n", 1)[1]
     props = [json.loads(l) for l in open(os.path.join(root, "properties.jsonl"))]
     plist = "\n".join(f"* {p['id']} — {p['title']}. {p['statement']}" for p in props)
-    for aid, pair in (PAIRS15 if tag.startswith('seed15') else PAIRS14):
+    for aid, pair in (PAIRS16 if tag.startswith('seed16') else PAIRS15 if tag.startswith('seed15') else PAIRS14):
         d = f"/tmp/{tag}_{aid}"
         text = ("This time you are not given one property but an INTERACTION of features. The repository is expected to satisfy all of the "
                 "following properties (each must hold for every input, history and configuration):\n\n" + plist +
@@ -284,7 +299,7 @@ def main14(tag, outdir):
 
 def main():
     tag, outdir = sys.argv[1], sys.argv[2]
-    if tag.startswith("seed14") or tag.startswith("seed15"):
+    if tag.startswith("seed14") or tag.startswith("seed15") or tag.startswith("seed16"):
         return main14(tag, outdir)
     if tag.startswith("seed13"):
         return main13(tag, outdir)
